@@ -16,6 +16,14 @@ func RemoveTmpFiles(rootDir string) error {
 		if !strings.HasPrefix(info.Name(), "tmp") {
 			return nil
 		}
-		return os.RemoveAll(path)
+		if err := os.RemoveAll(path); err != nil {
+			return err
+		}
+
+		// The directory no longer exists, so it must not be descended into.
+		if info.IsDir() {
+			return filepath.SkipDir
+		}
+		return nil
 	})
 }
